@@ -734,37 +734,49 @@ class Session:
         self.err_mark = len(_thread_errors)
         self.nsent = 0
         self.pos = 0
-        if cfg.get("observer", "inotify") == "polling":
-            from watchdog.observers.polling import PollingObserver
-
-            self.obs = PollingObserver(timeout=cfg.get("poll", 0.03))
-        else:
-            from watchdog.observers.inotify import InotifyObserver
-
-            self.obs = InotifyObserver(generate_full_events=bool(cfg.get("full")))
-        flt = cfg.get("event_filter")
-        if flt is not None:
-            from watchdog import events as ev
-
-            flt = [getattr(ev, n) for n in flt]
-        kw = {"follow_symlink": True} if cfg.get("follow_symlink") else {}
-        self.watch = self.obs.schedule(self.handler, given, recursive=bool(cfg.get("recursive", True)), event_filter=flt, **kw)
-        _start = self.obs.start
-        self.obs.start = lambda: with_instances(_start)  # (the emitters are created in start())
         self.given2 = None
-        if tw:
-            # the same directory scheduled a second time on the same observer, under another spelling, for another handler
-            self.given2 = self._spell(tw.get("spelling", "abs"), tw.get("pathtype", "str"))
-            self.rec2 = Recorder()
-            self.handler2 = self.rec2.make_handler()
-            self.pos2 = 0
-            if tw.get("first"):
-                self.obs.unschedule(self.watch)
-                self.watch2 = self.obs.schedule(self.handler2, self.given2, recursive=bool(cfg.get("recursive", True)), event_filter=flt)
-                self.watch = self.obs.schedule(self.handler, given, recursive=bool(cfg.get("recursive", True)), event_filter=flt)
+
+        def build():
+            # observer, watches and start() as one unit: a start() that fails because the machine is out of inotify
+            # instances drops the emitter it could not start, so the whole thing is set up again
+            if cfg.get("observer", "inotify") == "polling":
+                from watchdog.observers.polling import PollingObserver
+
+                self.obs = PollingObserver(timeout=cfg.get("poll", 0.03))
             else:
-                self.watch2 = self.obs.schedule(self.handler2, self.given2, recursive=bool(cfg.get("recursive", True)), event_filter=flt)
-        self.obs.start()
+                from watchdog.observers.inotify import InotifyObserver
+
+                self.obs = InotifyObserver(generate_full_events=bool(cfg.get("full")))
+            flt = cfg.get("event_filter")
+            if flt is not None:
+                from watchdog import events as ev
+
+                flt = [getattr(ev, n) for n in flt]
+            kw = {"follow_symlink": True} if cfg.get("follow_symlink") else {}
+            self.watch = self.obs.schedule(self.handler, given, recursive=bool(cfg.get("recursive", True)), event_filter=flt, **kw)
+            self.given2 = None
+            if tw:
+                # the same directory scheduled a second time on the same observer, under another spelling, for another handler
+                self.given2 = self._spell(tw.get("spelling", "abs"), tw.get("pathtype", "str"))
+                self.rec2 = Recorder()
+                self.handler2 = self.rec2.make_handler()
+                self.pos2 = 0
+                if tw.get("first"):
+                    self.obs.unschedule(self.watch)
+                    self.watch2 = self.obs.schedule(self.handler2, self.given2, recursive=bool(cfg.get("recursive", True)), event_filter=flt)
+                    self.watch = self.obs.schedule(self.handler, given, recursive=bool(cfg.get("recursive", True)), event_filter=flt)
+                else:
+                    self.watch2 = self.obs.schedule(self.handler2, self.given2, recursive=bool(cfg.get("recursive", True)), event_filter=flt)
+            try:
+                self.obs.start()
+            except BaseException:
+                try:
+                    self.obs.stop()
+                except Exception:  # noqa: BLE001
+                    pass
+                raise
+
+        with_instances(build)
         self.closed = False
 
     def _spell(self, spelling, pt):
